@@ -25,18 +25,18 @@ import (
 )
 
 type zvC17Open struct {
-	V4        bool   `json:"ipv4"`
-	V4APRecv  bool   `json:"ipv4_addpath_recv"`
-	V4APSend  bool   `json:"ipv4_addpath_send"`
-	V4ExtNH   bool   `json:"ipv4_nexthop_extended"`
-	V4MP      bool   `json:"advertise_ipv4_mp"`
-	V6        bool   `json:"ipv6"`
-	V6APRecv  bool   `json:"ipv6_addpath_recv"`
-	V6APSend  bool   `json:"ipv6_addpath_send"`
-	Role      int    `json:"peer_role"` // -1 = off
-	LocalAS   uint32 `json:"local_as"`
-	Hold      uint16 `json:"hold_time"`
-	RouterID  uint32 `json:"router_id"`
+	V4       bool   `json:"ipv4"`
+	V4APRecv bool   `json:"ipv4_addpath_recv"`
+	V4APSend bool   `json:"ipv4_addpath_send"`
+	V4ExtNH  bool   `json:"ipv4_nexthop_extended"`
+	V4MP     bool   `json:"advertise_ipv4_mp"`
+	V6       bool   `json:"ipv6"`
+	V6APRecv bool   `json:"ipv6_addpath_recv"`
+	V6APSend bool   `json:"ipv6_addpath_send"`
+	Role     int    `json:"peer_role"` // -1 = off
+	LocalAS  uint32 `json:"local_as"`
+	Hold     uint16 `json:"hold_time"`
+	RouterID uint32 `json:"router_id"`
 }
 
 type zvC17Case struct {
@@ -50,7 +50,7 @@ type zvC17Case struct {
 	Cluster int    `json:"cluster_list"`
 	Unknown []int  `json:"unknown_attr_sizes"`
 	UnkPart bool   `json:"unknown_attr_partial"`
-	Scalars int    `json:"scalars"` // bit0 MED, bit1 ATOMIC_AGGREGATE, bit2 AGGREGATOR, bit3 iBGP session, bit4 route reflector client session
+	Scalars int    `json:"scalars"`          // bit0 MED, bit1 ATOMIC_AGGREGATE, bit2 AGGREGATOR, bit3 iBGP session, bit4 route reflector client session
 	Family  string `json:"family,omitempty"` // v4 | v6mp | v4mp-nh6 | v4mp-nh4
 	AddPath bool   `json:"add_path"`
 	ASN4    bool   `json:"asn4"`
@@ -168,10 +168,10 @@ func zvC17PfxModel(p *bnet.Prefix, id uint32, addPath bool) zvC17Pfx {
 }
 
 type zvC17Built struct {
-	msgs   [][]byte
-	expect []*zvC17Expect
+	msgs    [][]byte
+	expect  []*zvC17Expect
 	refused int
-	cause  string // AS path shape class (signature feature)
+	cause   string // AS path shape class (signature feature)
 }
 
 // zvC17BuildUpdate does what adjRIBOut + UpdateSender do with a path: optional
@@ -414,7 +414,9 @@ func zvC17CheckUpdateRepo(msg []byte, e *zvC17Expect) zvC17Verdict {
 	if !ok || u == nil || m.Header == nil || int(m.Header.Length) != len(msg) || m.Header.Type != UpdateMsg {
 		return zvC17Verdict{"mismatch", "header", fmt.Sprintf("decoded header %+v / body %T", m.Header, m.Body)}
 	}
-	mis := func(attr, f string, a ...any) zvC17Verdict { return zvC17Verdict{"mismatch", attr, fmt.Sprintf(f, a...)} }
+	mis := func(attr, f string, a ...any) zvC17Verdict {
+		return zvC17Verdict{"mismatch", attr, fmt.Sprintf(f, a...)}
+	}
 	seen := map[uint8]bool{}
 	unk := map[uint8]zvC17Unk{}
 	for _, x := range e.Unknown {
@@ -837,7 +839,9 @@ func zvC17Defined(code, sub int) bool {
 func zvC17Notification(r *vh.Run, c *zvC17Case) {
 	var msg []byte
 	r.Eval(1)
-	if p, what := vh.Try(func() { msg = SerializeNotificationMsg(&BGPNotification{ErrorCode: uint8(c.Code), ErrorSubcode: uint8(c.Sub)}) }); p {
+	if p, what := vh.Try(func() {
+		msg = SerializeNotificationMsg(&BGPNotification{ErrorCode: uint8(c.Code), ErrorSubcode: uint8(c.Sub)})
+	}); p {
 		r.Violation(vh.Sig("clause", "serialize_panic", "msg", "notification"), c, "SerializeNotificationMsg panicked: %s", what)
 		return
 	}
